@@ -367,7 +367,7 @@ def run_shard(spec):
     else:
         mode = spec["mode"]
         rnd = random.Random("%s/C18/%s/%s" % (spec["seed"], mode, spec["rep"]))
-        g = QGen(rnd, allow_fail=True, allow_volatile=True, allow_mutators=False, max_len=5)
+        g = QGen(rnd, allow_fail=True, allow_volatile=True, allow_mutators=True, max_len=5)
         g.avoid_none_default = True
         for _ in range(spec["n"]):
             q = g.top()
